@@ -171,6 +171,14 @@ func Gen(r *kit.Rand, o Opts) *Case {
 				if !exactEmitted[u] || r.Chance(0.1) {
 					if r.Chance(0.5) || (fi == nf-1 && b == nblk-1) {
 						exactEmitted[u] = true
+						if r.Chance(0.15) {
+							// the unit's direction is settled first, then contradicted on the
+							// very line that declares the unit exact: the line is complained
+							// about, and its second pair still counts
+							f.Lines = append(f.Lines, Line{K: KUnit, Unit: u, MKey: "better", MVal: "lower"})
+							f.Lines = append(f.Lines, Line{K: KUnit, Unit: u, MKey: "assume", MVal: "exact", Pre: "better=higher"})
+							continue
+						}
 						f.Lines = append(f.Lines, Line{K: KUnit, Unit: u, MKey: "assume", MVal: "exact"})
 					}
 				}
